@@ -37,6 +37,10 @@ def run(check):
     from ..rules_mask import rule_mask_names, rule_mask_consume, rule_mask_hide
     M = Models(check)
     check.run_rule('C04.R6', lambda c: rule_embed_buckets(c, M.embed(), {'kinds': 'C04.R6', 'clear_must': 'C04.R6', 'clear_only': None, 'order': None}))
+    # ... and of the pairwise merger, which _embed uses to fit the inner signature to the stars that are forwarded
+    from .. import rules_merge as rm
+    check.run_rule('C04.R6m', lambda c: rm.rule_tables(c, M.merge(), 'C04.R6', ('sound',), 'the merge step inside embed is sound (tables B2-B4)'))
+    check.run_rule('C04.R6n', lambda c: rm.rule_kwo_and_stars(c, M.merge(), 'C04.R6', ('sound',)))
     check.run_rule('C04.R6b', lambda c: rule_embed_dupes(c, M.embed(), 'C04.R6'))
     check.run_rule('C04.R6c', lambda c: rule_embed_flags(c, M.embed(), 'C04.R6'))
     check.run_rule('C04.R7', lambda c: rule_mask_names(c, M.mask(), {'table': 'C04.R7', 'index': 'C04.R7', 'kinds': 'C04.R7', 'src': None, 'pdefault': None}))
